@@ -31,3 +31,36 @@ TABLE['C02'] = {
     'level_text': 'Deductive proof, for all strings, that the sh-quoting and ninja-escaping kernels (posix.inner_quote_info, wrap_quotes, quote_info; ninja Writer.escape_str, Writer.write for str/shell_literal/literal fragments) make ninja+sh read back exactly the argument; property-level sentences about whole build scripts are not carried',
     'level_note': 'Trusted: PyVC itself, z3, the spec folds specs/sh.py (validated against dash) and specs/ninja.py (from the manual, not tool-validated), library models of str.replace/re (cross-checked against CPython each run). Not covered: argument-list assembly in builtins, jbos/Path fragments, rule scoping.',
 }
+
+MK_ASSUME = ['specs/make.py (GNU make reading of recipe lines, := values, target/prerequisite words and $(call) arguments) '
+             'is written from the manual and the probes in DESIGN.md Appendix B; validated against /usr/bin/make 4.3 by '
+             'specs/validate_make.py (thorough tier)',
+             're.sub on the pattern family F2 "(a*)(class|^x|$)" with the make/windows replacement function is the '
+             'run-length transducer of pyvc/models.py f2_fold (cross-checked against CPython re on every run)']
+
+TABLE['C01'] = {
+    'modules': ['contracts.make'],
+    'level': 'proof',
+    'assumptions': SH_ASSUME + MK_ASSUME,
+    'trusted_base': ['PyVC (pyvc/*.py)', 'z3 5.1.0', 'specs/sh.py', 'specs/make.py'],
+    'not_covered': ['how builtins/*.py assemble the argument lists handed to the writer (which option lands in which variable)',
+                    'Writer.write for jbos / BasePath / syntax_string fragments (in progress)',
+                    'write_each / write_shell over argument lists; define/endef bodies; join_lines, local_env, global_env',
+                    'nested test-driver quoting (_build_commands)'],
+    'level_text': 'Deductive proof, for all strings, that the sh-quoting kernel (posix.inner_quote_info, wrap_quotes, quote_info) and the make escaping kernel (Writer.escape_str in all five syntaxes, Writer.write for str/shell_literal/literal fragments) make GNU make + sh read back exactly the argument, in a recipe line and in a := assignment; three genuine defects are recorded as known findings and the failing obligations are re-proved outside their witnesses. Whole-script sentences of the property are not carried.',
+    'level_note': 'Trusted: PyVC, z3, spec folds specs/sh.py and specs/make.py (both validated against the real tools in the thorough tier), library models of str.replace/re (cross-checked each run). Not covered: argument-list assembly in builtins, jbos/Path fragments, list-level writers.',
+}
+
+TABLE['C04'] = {
+    'modules': ['contracts.make', 'contracts.ninja'],
+    'level': 'proof',
+    'assumptions': SH_ASSUME + MK_ASSUME + NJ_ASSUME + [
+        'representable Make names: printable ASCII without backslash, * ? [ ] ; = tab, not starting with ~, not ending in blank or & (the property\'s own exclusions; no escaping accepted by GNU make exists for them)',
+        'representable Ninja names: no | and no line break'],
+    'trusted_base': ['PyVC (pyvc/*.py)', 'z3 5.1.0', 'specs/make.py', 'specs/ninja.py', 'specs/sh.py'],
+    'not_covered': ['that the build step creates / is up to date / notices changes / clean removes the file (tool behaviour given name identity)',
+                    'BasePath realisation ($(srcdir) + suffix) in Writer.write (in progress)', 'find.write_depfile, depfixer (see C07)',
+                    'directory sentinels (Pattern %/.dir)'],
+    'level_text': 'Deductive proof, for all representable names, that make Writer.escape_str/Writer.write (target, dependency, function syntaxes) and ninja Writer.escape_str/Writer.write (output, input) are read back by the tool as exactly the name, and that target-side and dependency-side spellings agree; the comma-in-$(call) defect is a known finding, the %-in-prerequisite defect was repaired (fix commit).',
+    'level_note': 'Trusted: PyVC, z3, specs/make.py (validated against make 4.3), specs/ninja.py (not tool-validated), F2 regex transducer model (cross-checked). Not covered: tool behaviour after name resolution, Path realisation, depfiles.',
+}
